@@ -66,6 +66,12 @@ def cases(prop, shard, nshards, seed, tier, want_models=False):
                 continue
             if mine():
                 yield {"family": "hostile-" + hops[0]["op"], "file": fn, "ops": hops}
+    # size: more than 65 535 residues in one model (two copies of an RNA chain with 65 600 waters listed between them,
+    # read from PDB text), and more than 65 535 donor / acceptor atoms (twenty copies of a 327-nucleotide RNA)
+    if prop == "C03" and mine():
+        yield {"family": "more-than-65535-residues", "file": "tests/4qln.pdb", "ops": []}
+    if prop == "C11" and mine():
+        yield {"family": "twenty-copies", "file": "tests/6g90_1.cif", "ops": []}
     # degenerate inputs: nothing to annotate (no residue, one residue, one donor/acceptor atom at most, no base atoms)
     for hops in ([{"op": "first-n", "n": 0}], [{"op": "first-n", "n": 1}], [{"op": "backbone-only"}], [{"op": "first-n", "n": 2}, {"op": "thin-atoms", "seed": "d", "frac": 1.0, "names": ["N1", "N2", "N3", "N4", "N6", "N7", "O2", "O4", "O6", "O2'", "O4'", "OP1", "OP2", "O3'", "O5'"]}]):
         if mine():
@@ -474,6 +480,47 @@ def run_case(prop, case, rec, call):
         for m in (other, case["model"]):
             mon3d._cur["ctx"] = {"file": case["file"], "all-models-in-one-structure": True, "models-numbered-from": base, "model": m, "asked-before-on-this-object": case["model"]}
             call(s, m)
+        return
+    if fam == "more-than-65535-residues":
+        from vmon import emit
+
+        rows = [r for r in emit.rows_from_structure(gen3d.load(case["file"], 1)) if r["chain"] == "A" and r["resname"] in STANDARD_NAMES]
+        copy = [dict(r, chain="B", x=round(r["x"] + 150.0, 3)) for r in rows]
+        waters = []
+        for i in range(65600):
+            waters.append({"rec": "HETATM", "serial": 0, "name": "O", "alt": None, "resname": "HOH", "chain": "abcdefg"[i // 9999], "resseq": i % 9999 + 1, "icode": None,
+                           "x": round(300.0 + (i % 60) * 3.0, 3), "y": round((i // 60 % 60) * 3.0, 3), "z": round((i // 3600) * 3.0, 3), "occ": 1.0, "b": 0.0, "element": "O", "charge": None, "model": 1})
+        allrows = rows + waters + copy
+        for i, r in enumerate(allrows, 1):
+            r["serial"] = i
+        mon3d._cur["ctx"] = {"file": case["file"], "layout": "chain A, 65 600 waters, translated copy of chain A as chain B", "residues": 2 * len({(r["resseq"], r["icode"]) for r in rows}) + 65600}
+        try:
+            s = emit.read_text(emit.emit_pdb(allrows), ".pdb")
+        except Exception as e:
+            rec.undecided("pairs.maximal", f"reader raised {type(e).__name__}")
+            return
+        n = call(s, None)
+        rec.mark_nontrivial(n > 0)
+        return
+    if fam == "twenty-copies":
+        from rnapolis import tertiary
+        from rnapolis.common import ResidueAuth, ResidueLabel
+
+        base = gen3d.load(case["file"], 1)
+        res = []
+        for c in range(20):
+            off = np.array([400.0 * (c % 5), 400.0 * (c // 5), 0.0])
+
+            def relabel(ri, r, c=c):
+                lab = ResidueLabel(f"{r.label.chain}{c}", r.label.number, r.label.name) if r.label is not None else None
+                auth = ResidueAuth(f"{r.auth.chain}{c}", r.auth.number, r.auth.icode, r.auth.name) if r.auth is not None else None
+                return lab, auth
+
+            res += list(gen3d.rebuild(base, coord_fn=lambda ri, p, off=off: p + off, relabel=relabel).residues)
+        s = tertiary.Structure3D(res)
+        mon3d._cur["ctx"] = {"file": case["file"], "copies": 20, "residues": len(res)}
+        n = call(s, None)
+        rec.mark_nontrivial(n > 0)
         return
     if fam == "different-molecules-as-models":
         from rnapolis import tertiary
